@@ -27,13 +27,14 @@ BOUNDS = {
              "gap after image and image size alignment options; unsigned containers (SRK set 'none')",
     "thorough": "as quick with 3 containers x 3 images and every family that has the AHAB feature",
 }
-OUTSIDE = ("signed containers: SRK tables / records from real keys, container signatures, certificates and key blobs, "
-           "encrypted images (real RSA / ECDSA / AES behind the cryptography API; the signing path needs key objects the "
-           "stub layer of this round does not cover for AHAB) - the signature, SRK hash and decryption clauses of C06 are NOT "
-           "decided; image sizes above the bounds; YAML configuration plumbing; hash collisions (the hash is an "
+OUTSIDE = ("that ECDSA / RSA signatures are sound (the symbolic run models the signature as an uninterpreted function of "
+           "key and data, the concrete run verifies with the real key); RSA and P-521 SRK tables, SRK set 'nxp', certificates "
+           "(image keys), key blobs and encrypted images, container version 2 (PQC) - NOT decided; image sizes above the bounds; YAML configuration plumbing; hash collisions (the hash is an "
            "uninterpreted function, assumed collision free where a corruption must be noticed)")
-STUBS = ["get_hash -> uninterpreted function per algorithm (both sides of every comparison use it)"]
-MUST_REACH = ["ahab\\..*", "iae\\..*", "parse\\..*", "corrupt\\..*"]
+STUBS = ["get_hash -> uninterpreted function per algorithm (both sides of every comparison use it)",
+         "PublicKeyEcc inside ahab_srk -> stub key class (symbolic coordinates, signatures an uninterpreted function of key and "
+         "data); signature provider -> the same function", "create_srk_hash_fuses_script (report text) -> constant"]
+MUST_REACH = ["ahab\\..*", "iae\\..*", "parse\\..*", "corrupt\\..*", "sign\\..*"]
 OPTS = {"quick": {"case_timeout_s": 400, "max_paths": 3000}, "thorough": {"case_timeout_s": 2400, "max_paths": 30000}}
 
 HBITS = {"sha256": 256, "sha384": 384, "sha512": 512}
@@ -57,6 +58,14 @@ def setup(symbolic):
     if symbolic:
         IM.BinaryImage.__str__ = lambda self: "<image>"
         IM.BinaryImage.draw = lambda self, *a, **k: ""
+        # SRK records rebuild public keys from their parameters: the library constructors (point validation in C) are
+        # replaced by the stub key classes
+        from symx import keystubs
+        import spsdk.image.ahab.ahab_srk as SRK
+        cls = keystubs.classes()
+        SRK.PublicKeyEcc = cls["StubEcc"]
+        # report text only: the verifier renders the SRK hash as a blhost fuse script
+        AC.AHABContainer.create_srk_hash_fuses_script = lambda self: "<fuse script>"
 
 
 def H(env, data, alg):
@@ -217,6 +226,134 @@ def h_build(env, c):
         env.prove(True, "corrupt.modified_image_byte_is_reported")
 
 
+def _srk_keys(env, c):
+    """4 SRK keys + the signature provider of the used one (stub keys symbolically, repository test keys concretely)"""
+    bits = c["bits"]
+    n = bits // 8
+    curve = {256: "secp256r1", 384: "secp384r1"}[bits]
+    used = c["used"]
+    if env.symbolic:
+        from symx import keystubs
+        cls = keystubs.classes()
+        keys = [cls["StubEcc"](env.int(f"srk{i}_x", 0, (1 << bits) - 1), env.int(f"srk{i}_y", 0, (1 << bits) - 1), curve) for i in range(4)]
+        sp = cls["StubSP"](keys[used].ident(), 2 * n)
+    else:
+        from spsdk.crypto.keys import PublicKeyEcc
+        from spsdk.crypto.signature_provider import get_signature_provider
+        d = f"/repo/tests/_data/keys/ecc{bits}/"
+        keys = [PublicKeyEcc.load(d + f"srk{i}_ecc{bits}.pub") for i in range(4)]
+        sp = get_signature_provider(local_file_key=d + f"srk{used}_ecc{bits}.pem")
+    return keys, sp, n
+
+
+def h_signed(env, c):
+    """signed container (SRK set OEM, ECDSA SRK table): SRK records carry the keys, the table hash is the hash of the
+    exported table, the signature is the selected key's signature over exactly header + image array + signature block up to
+    the signature, SPSDK's verifier accepts it and reports a modified authenticated byte"""
+    import spsdk.image.ahab.ahab_srk as SRK
+    import spsdk.image.ahab.ahab_signature as SIG
+    keys, sp, n = _srk_keys(env, c)
+    used = c["used"]
+    mask = env.int("srk_revoke_mask", 0, 15)
+    env.assume((mask // (1 << used)) % 2 == 0)            # the key used for signing is not revoked
+    img = AI.AHABImage(c["family"], target_memory="standard")
+    flags = 2 + used * 16 + mask * 256
+    cont = AC.AHABContainer(chip_config=img.chip_config, flags=flags, fuse_version=env.int("fuse_version", 0, 255),
+                            sw_version=env.int("sw_version", 0, 0xFFFF))
+    srk = SRK.SRKTable(srk_records=[SRK.SRKRecord.create_from_key(k) for k in keys])
+    cont.signature_block = SB.SignatureBlock(chip_config=cont.chip_config, srk_assets=srk,
+                                             container_signature=SIG.ContainerSignature(signature_provider=sp))
+    core = cont.chip_config.base.core_ids.tags()[0]
+    itype = IAE.ImageArrayEntry.get_image_types(cont.chip_config, core).tags()[0]
+    data = env.bytes("image", c["L"])
+    e = IAE.ImageArrayEntry(chip_config=cont.chip_config, image=data, load_address=env.int("load", 0, (1 << 64) - 1),
+                            entry_point=env.int("entry", 0, (1 << 64) - 1),
+                            flags=IAE.ImageArrayEntry.create_flags(image_type=itype, core_id=core,
+                                                                   hash_type=AD.AHABSignHashAlgorithmV1.SHA256),
+                            image_meta_data=0)
+    cont.image_array.append(e)
+    img.add_container(cont)
+    img.update_fields()
+    env.assume(env.Or(*[x != 0 for x in list(e.image_hash)[:32]]))
+    env.prove(not img.verify().has_errors, "sign.own_verifier_accepts_signed_container")
+    out = img.export()
+    b = list(out)
+    # ---- independent reading ------------------------------------------------------------------------------------------
+    f = u(env, b, 4, 4)
+    env.prove(env.And(f % 4 == 2, (f // 16) % 4 == used, (f // 256) % 16 == mask), "sign.flags_select_srk_set_key_and_revocations")
+    so = conc(u(env, b, 12, 2))
+    env.prove(so == 0x10 + 128, "sign.signature_block_after_image_array")
+    env.prove(env.And(b[so] == 0, b[so + 3] == 0x90), "sign.signature_block_header")
+    sb_len = conc(u(env, b, so + 1, 2))
+    cert_off, srk_off, sig_off, blob_off = (conc(u(env, b, so + 4 + 2 * k, 2)) for k in range(4))
+    env.prove(cert_off == 0 and blob_off == 0, "sign.no_certificate_no_blob")
+    env.prove(srk_off == 0x10, "sign.srk_table_directly_after_block_header")
+    t = so + srk_off
+    env.prove(env.And(b[t] == 0xD7, b[t + 3] == 0x42), "sign.srk_table_header")
+    tl = conc(u(env, b, t + 1, 2))
+    rec_len = 12 + 2 * n
+    env.prove(tl == 4 + 4 * rec_len, "sign.srk_table_holds_four_records")
+    for i, k in enumerate(keys):
+        r = t + 4 + i * rec_len
+        env.prove(env.And(b[r] == 0xE1, u(env, b, r + 1, 2) == rec_len, b[r + 3] == 0x27), "sign.srk_record_header_ecdsa")
+        env.prove(env.And(b[r + 4] == {32: 0, 48: 1}[n], b[r + 5] == {32: 1, 48: 2}[n]), "sign.srk_record_hash_and_curve")
+        env.prove(env.And(u(env, b, r + 8, 2) == n, u(env, b, r + 10, 2) == n), "sign.srk_record_parameter_lengths")
+        env.prove(env.And(env.from_bytes(b[r + 12: r + 12 + n], "big") == k.x, env.from_bytes(b[r + 12 + n: r + 12 + 2 * n], "big") == k.y),
+                  "sign.srk_record_carries_the_key_coordinates")
+    env.prove(sig_off == (srk_off + tl + 7) // 8 * 8, "sign.signature_after_srk_table_on_8_byte_boundary")
+    s0 = so + sig_off
+    env.prove(env.And(b[s0] == 0, b[s0 + 3] == 0xD8, u(env, b, s0 + 1, 2) == 8 + 2 * n), "sign.signature_container_header")
+    env.prove(sb_len == sig_off + 8 + 2 * n, "sign.signature_block_length")
+    env.prove(u(env, b, 1, 2) == so + sb_len, "sign.container_length")
+    sig = b[s0 + 8: s0 + 8 + 2 * n]
+    signed = b[:s0]
+    # a signature that equals the 00 01 02 .. placeholder pattern is an artefact of the uninterpreted signature function
+    env.assume(env.Or(*[sig[i] != i for i in range(4)]))
+    if env.symbolic:
+        from symx import stubs
+        env.prove(env.bytes_eq(sig, stubs.uf("SIGN", [keys[used].ident(), signed], 2 * n)),
+                  "sign.signature_of_selected_srk_over_header_array_and_block_up_to_signature")
+        table_hash = H(env, b[t: t + tl], "sha256")
+    else:
+        env.prove(keys[used].verify_signature(bytes(sig), bytes(signed)),
+                  "sign.signature_of_selected_srk_over_header_array_and_block_up_to_signature")
+        table_hash = H(env, b[t: t + tl], "sha256")
+    env.prove_eq(srk.compute_srk_hash(), table_hash if env.symbolic else bytes(table_hash), "sign.srk_hash_is_hash_of_exported_table")
+    # ---- parse back ------------------------------------------------------------------------------------------------------
+    back = AI.AHABImage(c["family"], target_memory="standard")
+    back.parse(out)
+    env.prove(bool(back.ahab_containers[0] == cont), "sign.parsed_container_equal")
+    env.prove(not back.verify().has_errors, "sign.own_verifier_accepts_parsed_signed_container")
+    # ---- a modified authenticated byte is reported (symbolic run: signature function assumed injective on these inputs)
+    if c["corrupt_at"] == "none":
+        return
+    pos = c["corrupt_at"]
+    where = {"header_sw": 8, "iae_load": 0x10 + 8, "srk_x": t + 4 + used * rec_len + 12 + 3, "srk_flags": t + 4 + used * rec_len + 7, "header_fuse": 10}[pos]
+    bad = list(b)
+    bad[where] = bad[where] ^ env.int("flip_mask", 1, 255)
+    if env.symbolic:
+        from symx import stubs
+        from symx.sbytes import SymBytes
+        # (the signature function is assumed injective on the two inputs at hand)
+        s1 = stubs.uf("SIGN", [keys[used].ident(), signed], 2 * n)
+        s2 = stubs.uf("SIGN", [list(bad[t + 4 + used * rec_len + 12: t + 4 + used * rec_len + 12 + 2 * n]), bad[:s0]], 2 * n)
+        env.assume(env.Not(env.bytes_eq(s1, s2)))
+        badb = SymBytes.make(bad)
+    else:
+        badb = bytes(bad)
+    img2 = AI.AHABImage(c["family"], target_memory="standard")
+    try:
+        img2.parse(badb)
+        reported = img2.verify().has_errors
+    except EX.SPSDKError:
+        reported = True
+    env.prove(reported, "sign.modified_authenticated_byte_is_reported")
+
+
+def conc(v):
+    return v if isinstance(v, int) else v.__index__()
+
+
 def h_flags(env, c):
     """container flags word: SRK set, used SRK id and revoke mask are independent bit-fields (reference: bits 1:0, 5:4,
     11:8 of the flags word) and survive a header export / parse"""
@@ -240,8 +377,11 @@ def cases(tier):
     shapes = [[[1]], [[513, 512]], [[1025], [1, 513]]] if q else [[[1]], [[513, 512]], [[1025], [1, 513]], [[512, 1, 1025], [513], [1, 1]]]
     n = 0
     for fam in fams:
+        cfg = AI.AHABImage(fam).chip_config
         for mem in mems:
             for si, shape in enumerate(shapes):
+                if len(shape) > cfg.containers_max_cnt or max(map(len, shape)) > cfg.images_max_cnt:
+                    continue                # more containers / images than the family allows (refused by add_container)
                 for hsh in ("sha256", "sha384", "sha512"):
                     n += 1
                     if q and (n % 3 != si % 3) and not (fam == "mimxrt1189" and mem == "standard"):
@@ -255,6 +395,14 @@ def cases(tier):
             cs.append(dict(base, id=f"build/{fam}/{mem}/size_alignment_first", size_align=(0, 0)))
             if mem != "serial_downloader":
                 cs.append(dict(base, id=f"build/{fam}/{mem}/explicit_second_offset", explicit=(0, 1), explicit_offset=0x8000))
+    for fam in ("mimxrt1189", "mimx9352"):
+        for bits in (256, 384):
+            for used in (0, 1, 2, 3):
+                for pos in ("none", "header_sw", "header_fuse", "iae_load", "srk_x", "srk_flags"):
+                    if q and (used + bits // 128 + len(pos)) % 4 != 0 and not (fam == "mimxrt1189" and bits == 256 and pos == "header_sw"):
+                        continue
+                    cs.append({"id": f"signed/{fam}/ecc{bits}/used={used}/corrupt={pos}", "h": "signed", "family": fam, "bits": bits,
+                               "used": used, "L": 100, "corrupt_at": pos, "weight": 4})
     for fam in fams[:2]:
         for ss in ("none", "nxp", "oem"):
             cs.append({"id": f"flags/{fam}/{ss}", "h": "flags", "family": fam, "srk_set": ss})
